@@ -80,16 +80,18 @@ fn main() {
     run("S9a iterator on module without functions", || {
         let w = wat::parse_str(r#"(module (memory 1))"#).unwrap();
         let mut m = Module::parse(&w, false).unwrap();
-        let it = ModuleIterator::new(&mut m, &vec![]);
-        println!("created; curr_loc {:?}", it.curr_loc());
+        let mut it = ModuleIterator::new(&mut m, &vec![]);
+        println!("created; curr_op is_none={} next is_none={}", it.curr_op().is_none(), it.next().is_none());
     });
     run("S9b iterator with all functions skipped", || {
         let w = wat::parse_str(r#"(module (func nop) (func nop nop))"#).unwrap();
         let mut m = Module::parse(&w, false).unwrap();
         let mut it = ModuleIterator::new(&mut m, &vec![FunctionID(0), FunctionID(1)]);
         println!("created");
-        println!("curr_loc {:?}", it.curr_loc());
-        println!("next {:?}", it.next().is_some());
+        println!("curr_op is_none={}", it.curr_op().is_none());
+        println!("next is_none={}", it.next().is_none());
+        it.reset();
+        println!("after reset: curr_op is_none={}", it.curr_op().is_none());
     });
     run("S9c iterator with first function skipped: end flag", || {
         let w = wat::parse_str(r#"(module (func nop) (func nop nop nop))"#).unwrap();
@@ -98,6 +100,21 @@ fn main() {
         let mut n = 0;
         loop { let (loc, end) = it.curr_loc(); println!("  {:?} end={}", loc, end); n += 1; if it.next().is_none() { break; } }
         println!("visited {n} (expected 4: nop nop nop end)");
+    });
+    run("S14 component iterator: trailing skipped function / empty module must not end the traversal", || {
+        use wirm::iterator::component_iterator::ComponentIterator;
+        use std::collections::HashMap;
+        let w = wat::parse_str(r#"(component
+            (core module $m0 (func nop) (func nop nop))
+            (core module $m1 (memory 1))
+            (core module $m2 (func nop nop nop)))"#).unwrap();
+        let mut c = wirm::Component::parse(&w, false).unwrap();
+        let mut skip = HashMap::new();
+        skip.insert(ModuleID(0), vec![FunctionID(1)]);
+        let mut it = ComponentIterator::new(&mut c, skip);
+        let mut n = 0;
+        loop { if it.curr_op().is_some() { let (loc, end) = it.curr_loc(); println!("  {:?} end={}", loc, end); n += 1; } if it.next().is_none() { break; } }
+        println!("visited {n} (expected 6: m0.f0 nop end, m2.f0 nop nop nop end)");
     });
     run("S10 set_fn_name on added import", || {
         let w = wat::parse_str(r#"(module (func $a))"#).unwrap();
